@@ -3,6 +3,7 @@ package props
 import (
 	"fmt"
 
+	"github.com/AsaiYusuke/jsonpath"
 	"pgregory.net/rapid"
 
 	"verif/harness/gen"
@@ -195,8 +196,26 @@ func checkC14(c *Case, st *Stats) string {
 	acc := evalLibrary(c, c14Document(c), true)
 	st.Eval(1)
 	if acc.parseErr == nil {
+		// the caller reads every result through its Accessor, twice: reading is not evaluating — no
+		// function is called again, and what Get hands out is the value the one call returned
+		var viaGet []interface{}
+		reads := 0
+		for _, v := range acc.got {
+			if a, ok := v.(jsonpath.Accessor); ok && a.Get != nil {
+				_ = a.Get()
+				v = a.Get()
+				reads++
+			}
+			viaGet = append(viaGet, v)
+		}
+		if reads > 0 {
+			st.Class("accessor-mode:results-read-through-Get")
+		}
 		if msg := compareCallLogs(acc.rec, res, st, c.AST); msg != "" {
-			return "accessor mode: " + msg
+			return "accessor mode (every result read twice through Get): " + msg
+		}
+		if reads > 0 && lib.err == nil && acc.err == nil && len(res.Nodes) > 0 && deepSameList(lib.got, res.Values()) && !deepSameList(viaGet, res.Values()) {
+			return fmt.Sprintf("accessor mode: reading the results through Get gives %s, the chained return values are %s", JSONString(viaGet), JSONString(res.Values()))
 		}
 	}
 	info := DescribeErr(lib.err)
